@@ -66,6 +66,13 @@ def run(ctx):
         "stalled_daemon_process": dict(stall, cells=len(stall["cells"])),
         "sched": cov,
     }
+    # threads and forked children in a C client (own contexts, handed-over contexts, inherited contexts)
+    from . import client as _client
+    _mv, _ms = _client.run_mt(ctx, "C18", 2.0 if ctx.quick() else 20.0)
+    viol += _mv
+    coverage["multi_threaded_c_client"] = _ms
+    if any("inconclusive" in str(v) or str(v).startswith("exit ") for v in _ms.values()) and not inconclusive:
+        inconclusive = "multi-threaded C client scenario did not complete: %s" % _ms
     finish(ctx, coverage, viol, inconclusive, assumptions=["work is counted in shared-memory accesses reported by the hooks, not in wall-clock time"])
 
 
